@@ -23,4 +23,20 @@ PROPS = {
                 "random lists; distinct = distinct (op,result) lines",
         "partial": "JSON-RPC server robustness and the ~80 embedded getters are runtime/correspondence only",
     },
+    "C14": {
+        "module": "ZenonVerif.Props.C14",
+        "streams": [S("prio", 20000, 1000000), S("filter", 4000, 200000)],
+        "rule": "prio stream: all ordered pairs of boundary (TotalPlasma, BasePlasma) values incl. 0 and the caps, then random "
+                "pairs (equal ratios, same plasma, same hash, hashes one bit apart, zero plasma, full uint64 range so the "
+                "products wrap, in-range), each evaluated in both directions on chain.higherPriority and on the model, plus "
+                "folds of 2-7 competitors in two random arrival orders; filter stream: block-type strings up to 300 long "
+                "(uniform types, contract batches incl. runs of 90-120 ContractSends, user blocks with batches, mostly "
+                "sends) through accountPool.filterBlocksToCommit and the model; distinct = distinct (op,result) lines",
+        "partial": "data-race freedom / readers never observing a half-applied block are runtime properties of Go's memory "
+                   "model, not theorems; the stateful pool model is tied to the real accountPool by the pure streams for the "
+                   "two decision functions only",
+        "assumptions": ["accepted user blocks carry TotalPlasma <= MaxPlasmaForAccountBlock and 0 < BasePlasma <= "
+                        "AccountBlockBasePlasma + ABByteDataPlasma*MaxDataLength (vm.enoughPlasma); blocks of embedded "
+                        "addresses carry TotalPlasma = BasePlasma = 0"],
+    },
 }
